@@ -16,13 +16,13 @@ DEMO=tests/mut_demo_${ID}_${X}.rs
 echo "== $ID/$X at $(git rev-parse --short HEAD)"
 cp $SRC/demo.rs $DEMO
 echo "-- demo on clean tree"
-cargo test --offline -j 8 --test mut_demo_${ID}_${X} 2>&1 | grep -E "^test |test result|error" | head -20
+cargo test --offline -j 6 --test mut_demo_${ID}_${X} 2>&1 | grep -E "^test |test result|error" | head -20
 if ! git apply --whitespace=nowarn $SRC/patch.diff 2>&1; then echo "PATCH DOES NOT APPLY"; git checkout -q -- .; rm -f $DEMO; exit 1; fi
 echo "-- demo with patch"
-cargo test --offline -j 8 --test mut_demo_${ID}_${X} 2>&1 | grep -E "^test |test result|error" | head -20
+cargo test --offline -j 6 --test mut_demo_${ID}_${X} 2>&1 | grep -E "^test |test result|error" | head -20
 rm -f $DEMO
 echo "-- suite with patch"
-cargo nextest run --workspace --no-fail-fast --test-threads 8 --offline --cargo-quiet 2>&1 | grep -E "Summary|FAIL|error" | head -20
+cargo nextest run --workspace --no-fail-fast --test-threads 6 --offline --cargo-quiet 2>&1 | grep -E "Summary|FAIL|error" | head -20
 git checkout -q -- .
 echo "== done"
 } > $LOG 2>&1
